@@ -61,6 +61,18 @@ impl Log {
         g.descr.push((scn, descr));
         scn
     }
+    pub fn block_with_consts(&self, descr: Value, consts: Value, events: Vec<Value>) -> u64 {
+        let mut g = self.inner.lock().unwrap();
+        g.scn += 1;
+        let scn = g.scn;
+        let line = json!({"ev": "reset", "scn": scn, "consts": consts}).to_string();
+        g.w.write_all(line.as_bytes()).unwrap();
+        g.w.write_all(b"\n").unwrap();
+        for e in events { let l = e.to_string(); g.w.write_all(l.as_bytes()).unwrap(); g.w.write_all(b"\n").unwrap(); g.lines += 1; }
+        g.lines += 1;
+        g.descr.push((scn, descr));
+        scn
+    }
     pub fn finish(&self, descr_path: &str) {
         let mut g = self.inner.lock().unwrap();
         g.w.flush().unwrap();
